@@ -79,7 +79,7 @@ func init() {
 		LevelNote:   "Trusted: go/ssa, executor, z3, the specification in the harness. regexp2 is used through a contract (Compile fails for patterns marked bad; MatchString is an uninterpreted predicate of pattern and subject); time.ParseDuration runs for real on concrete annotation values. Names are 2 symbolic bytes over {a,b}, tags 1 byte; bounds on shapes per tier below.",
 		Technique:   techniqueText,
 		Explanation: "Bounded symbolic execution of DialerSet.FilterAndAnnotate / filterHit / NewAnnotation / NewDialerSelectionPolicyFromGroupParam.",
-		Bounds:      map[string]string{"quick": "2 nodes; shapes: no filter | 1 line x 1 condition x <=2 values | 2 lines x 1 condition x 1 value | 1 line x 2 conditions x 1 value; inputs name/subtag, keys exact/keyword/regex, negation symbolic, 1 regex pattern; invalid-element harness: 8 kinds at fixed positions (annotations alone and after a valid entry); policy: 7 names x params shapes", "thorough": "3 nodes; adds 2 lines x <=2 values, 2 lines x 2 conditions x <=2 values, 2 regex patterns"},
+		Bounds:      map[string]string{"quick": "2 nodes; shapes: no filter | 1 line x 1 condition x <=2 values | 2 lines x 1 condition x 1 value | 1 line x 2 conditions x 1 value; inputs name/subtag, keys exact/keyword/regex, negation symbolic, 1 regex pattern; invalid-element harness: 8 kinds at fixed positions (annotations alone and after a valid entry); policy: 7 names x negation x 0-2 parameters (plain or keyed, 6 spellings)", "thorough": "3 nodes; adds 2 lines x <=2 values, 2 lines x 2 conditions x <=2 values, 2 regex patterns"},
 		Outside:     []string{"regexp2's own matching", "names longer than 2 bytes / other characters (matching is by equality and substring on symbolic bytes)", "NewDialerSetFromLinks (node link parsing)"},
 		Assumptions: []string{"regexp2.Compile/MatchString by contract", "Dialer.Property() returns the harness's property object"},
 		QuickBudget: 8 * time.Minute, ThoroughBudget: 20 * time.Minute,
